@@ -415,6 +415,8 @@ structure StepOK (s s' : S) (blks blks' : List Nat) (target : Pos) (blk : Nat) :
   above : ∀ q, q.valid → firstBn target < firstBn q → ptr s'.st blks' q = ptr s.st blks q
   /-- a pointer that is set is never changed: mapping only fills empty positions -/
   keep : ∀ q, q.valid → ptr s.st blks q ≠ 0 → ptr s'.st blks' q = ptr s.st blks q
+  /-- whatever is new comes from the allocator -/
+  fromAllocs : ∀ q, q.valid → ptr s'.st blks' q = ptr s.st blks q ∨ ptr s'.st blks' q ∈ s.allocs
 
 /-- `leafStep` on an index block `r` that the tree owns (at position `P`), whose cell `i` is
     position `C` -/
@@ -429,16 +431,16 @@ theorem leafStep_ok (s : S) (blks : List Nat) (h : WFB s blks) (r i : Nat) (P C 
     rcases alloc_cases s with ⟨_, ha⟩ | ⟨a, rest, hal, ha⟩
     · rw [ha]
       simp only [if_true]
-      exact ⟨h, fun hx => absurd rfl hx, fun _ _ _ _ => rfl, fun _ _ _ _ => rfl, fun _ _ _ => rfl, fun _ _ _ => rfl⟩
+      exact ⟨h, fun hx => absurd rfl hx, fun _ _ _ _ => rfl, fun _ _ _ _ => rfl, fun _ _ _ => rfl, fun _ _ _ => rfl, fun _ _ => Or.inl rfl⟩
     · rw [ha]
       simp only
       by_cases ha0 : a = 0
       · simp only [ha0, if_true]
-        exact ⟨WFB_skip s _ blks a rest h hal rfl rfl, fun hx => absurd rfl hx, fun _ _ _ _ => rfl, fun _ _ _ _ => rfl, fun _ _ _ => rfl, fun _ _ _ => rfl⟩
+        exact ⟨WFB_skip s _ blks a rest h hal rfl rfl, fun hx => absurd rfl hx, fun _ _ _ _ => rfl, fun _ _ _ _ => rfl, fun _ _ _ => rfl, fun _ _ _ => rfl, fun _ _ => Or.inl rfl⟩
       · simp only [ha0, if_false]
         have hptr : ∀ q, q.valid → ptr (s.st.put r i a) blks q = if q = C then a else ptr s.st blks q := hput a
         have hafr := h.fresh
-        refine ⟨WFB_extend s _ blks blks C a rest h hal rfl ha0 hC h.len hptr ?_, ?_, ?_, fun hx => absurd hx ha0, ?_, ?_⟩
+        refine ⟨WFB_extend s _ blks blks C a rest h hal rfl ha0 hC h.len hptr ?_, ?_, ?_, fun hx => absurd hx ha0, ?_, ?_, ?_⟩
         · intro b hb hb0 x
           have hbf := h.fresh b (by rw [hal]; exact List.mem_cons_of_mem _ hb) hb0
           have hbr : b ≠ r := fun he => hbf.1 P hP (hPr.trans he.symm)
@@ -454,8 +456,13 @@ theorem leafStep_ok (s : S) (blks : List Nat) (h : WFB s blks) (r i : Nat) (P C 
           rw [hptr q hq]
           have : q ≠ C := by intro he; rw [he, hCv] at hne; exact hne hn
           simp [this]
+        · intro q hq
+          rw [hptr q hq]
+          by_cases hx : q = C
+          · rw [if_pos hx]; exact Or.inr (by rw [hal]; exact List.mem_cons_self)
+          · rw [if_neg hx]; exact Or.inl rfl
   · simp only [hn, ne_eq, not_false_eq_true, if_true]
-    exact ⟨h, fun _ => hCv, fun _ _ _ _ => rfl, fun hx => absurd hx hn, fun _ _ _ => rfl, fun _ _ _ => rfl⟩
+    exact ⟨h, fun _ => hCv, fun _ _ _ _ => rfl, fun hx => absurd hx hn, fun _ _ _ => rfl, fun _ _ _ => rfl, fun _ _ => Or.inl rfl⟩
 
 
 theorem ptr_eq_ptrR (st : Store) (blks : List Nat) (q : Pos) :
@@ -513,12 +520,12 @@ theorem dstep_ok (s : S) (blks : List Nat) (h : WFB s blks) (off : Nat)
     rcases alloc_cases s with ⟨_, ha⟩ | ⟨a, rest, hal, ha⟩
     · rw [ha]
       simp only [if_true]
-      exact ⟨⟨h, fun hx => absurd rfl hx, fun _ _ _ _ => rfl, fun _ _ _ _ => rfl, fun _ _ _ => rfl, fun _ _ _ => rfl⟩, trivial⟩
+      exact ⟨⟨h, fun hx => absurd rfl hx, fun _ _ _ _ => rfl, fun _ _ _ _ => rfl, fun _ _ _ => rfl, fun _ _ _ => rfl, fun _ _ => Or.inl rfl⟩, trivial⟩
     · rw [ha]
       simp only
       by_cases ha0 : a = 0
       · simp only [ha0, if_true]
-        exact ⟨⟨WFB_skip s _ blks a rest h hal rfl rfl, fun hx => absurd rfl hx, fun _ _ _ _ => rfl, fun _ _ _ _ => rfl, fun _ _ _ => rfl, fun _ _ _ => rfl⟩, trivial⟩
+        exact ⟨⟨WFB_skip s _ blks a rest h hal rfl rfl, fun hx => absurd rfl hx, fun _ _ _ _ => rfl, fun _ _ _ _ => rfl, fun _ _ _ => rfl, fun _ _ _ => rfl, fun _ _ => Or.inl rfl⟩, trivial⟩
       · simp only [ha0, if_false]
         refine ⟨?_, trivial⟩
         -- link the new middle block first, then fill its cell
@@ -559,7 +566,7 @@ theorem dstep_ok (s : S) (blks : List Nat) (h : WFB s blks) (off : Nat)
         have e1 : ({ s with allocs := rest } : S).st = s.st := rfl
         rw [← hres] at hstep
         simp only at hstep ⊢
-        refine ⟨hstep.wf, hstep.hit, ?_, ?_, ?_, ?_⟩
+        refine ⟨hstep.wf, hstep.hit, ?_, ?_, ?_, ?_, ?_⟩
         · intro q hq hdat hne
           rw [hstep.frame q hq hdat hne, hptr1 q hq]
           have : q ≠ .dmid j := by intro he; rw [he] at hdat; exact hdat
@@ -579,6 +586,13 @@ theorem dstep_ok (s : S) (blks : List Nat) (h : WFB s blks) (off : Nat)
           have h1 : ptr (s.st.put d j a) blks q = ptr s.st blks q := by rw [hptr1 q hq]; simp [hq1]
           rw [hstep.keep q hq (by show ptr (s.st.put d j a) blks q ≠ 0; rw [h1]; exact hne)]
           exact h1
+        · intro q hq
+          rcases hstep.fromAllocs q hq with h1 | h1
+          · rw [h1, hptr1 q hq]
+            by_cases hx : q = .dmid j
+            · rw [if_pos hx]; exact Or.inr (by rw [hal]; exact List.mem_cons_self)
+            · rw [if_neg hx]; exact Or.inl rfl
+          · exact Or.inr (by rw [hal]; exact List.mem_cons_of_mem _ h1)
   · simp only [hm, ne_eq, not_false_eq_true, if_true]
     refine ⟨?_, trivial⟩
     exact leafStep_ok s blks h (s.st d j) i (.dmid j) (.dleaf j i) hj
@@ -591,7 +605,7 @@ theorem dstep_ok (s : S) (blks : List Nat) (h : WFB s blks) (off : Nat)
 
 
 theorem StepOK.refl' (s : S) (blks : List Nat) (h : WFB s blks) (t : Pos) : StepOK s s blks blks t 0 :=
-  ⟨h, fun hx => absurd rfl hx, fun _ _ _ _ => rfl, fun _ _ _ _ => rfl, fun _ _ _ => rfl, fun _ _ _ => rfl⟩
+  ⟨h, fun hx => absurd rfl hx, fun _ _ _ _ => rfl, fun _ _ _ _ => rfl, fun _ _ _ => rfl, fun _ _ _ => rfl, fun _ _ => Or.inl rfl⟩
 
 /-- `bmap` on a well-formed tree: the tree stays well-formed (no block gets a second owner, what
     the allocator still holds stays unused and zero), a block returned for `bn` is the block the
@@ -619,9 +633,9 @@ theorem bmap_ok (s : S) (blks : List Nat) (bn : Nat) (h : WFB s blks)
         by_cases ha0 : a = 0
         · subst ha0
           simp only [hsame]
-          exact ⟨WFB_skip s _ blks 0 rest h hal rfl rfl, fun hx => absurd rfl hx, fun _ _ _ _ => rfl, fun _ _ _ _ => rfl, fun _ _ _ => rfl, fun _ _ _ => rfl⟩
+          exact ⟨WFB_skip s _ blks 0 rest h hal rfl rfl, fun hx => absurd rfl hx, fun _ _ _ _ => rfl, fun _ _ _ _ => rfl, fun _ _ _ => rfl, fun _ _ _ => rfl, fun _ _ => Or.inl rfl⟩
         · have hptr := ptr_set_dir s.st blks bn a h.len h1
-          refine ⟨WFB_extend s _ blks _ (.dir bn) a rest h hal rfl ha0 h1 (by simp [h.len]) hptr ?_, ?_, ?_, fun hx => absurd hx ha0, ?_, ?_⟩
+          refine ⟨WFB_extend s _ blks _ (.dir bn) a rest h hal rfl ha0 h1 (by simp [h.len]) hptr ?_, ?_, ?_, fun hx => absurd hx ha0, ?_, ?_, ?_⟩
           · intro b hb hb0 x
             exact (h.fresh b (by rw [hal]; exact List.mem_cons_of_mem _ hb) hb0).2 x
           · intro _; rw [hptr (.dir bn) h1]; simp
@@ -635,8 +649,13 @@ theorem bmap_ok (s : S) (blks : List Nat) (bn : Nat) (h : WFB s blks)
             have : q ≠ .dir bn := by
               intro he; rw [he] at hne; exact hne (by rw [ptr_eq_ptrR]; exact h0)
             simp [this]
+          · intro q hq
+            rw [hptr q hq]
+            by_cases hx : q = .dir bn
+            · rw [if_pos hx]; exact Or.inr (by rw [hal]; exact List.mem_cons_self)
+            · rw [if_neg hx]; exact Or.inl rfl
     · simp only [h0, if_false]
-      exact ⟨h, fun _ => by rw [ptr_eq_ptrR]; rfl, fun _ _ _ _ => rfl, fun hx => absurd hx h0, fun _ _ _ => rfl, fun _ _ _ => rfl⟩
+      exact ⟨h, fun _ => by rw [ptr_eq_ptrR]; rfl, fun _ _ _ _ => rfl, fun hx => absurd hx h0, fun _ _ _ => rfl, fun _ _ _ => rfl, fun _ _ => Or.inl rfl⟩
   · simp only [h1, if_false]
     by_cases h2 : bn - NDIRECT < NBLKBLK
     · -- single indirect
@@ -652,7 +671,7 @@ theorem bmap_ok (s : S) (blks : List Nat) (bn : Nat) (h : WFB s blks)
           simp only
           by_cases ha0 : a = 0
           · simp only [ha0, if_true, ne_eq, not_true_eq_false, decide_false, if_false]
-            exact ⟨WFB_skip s _ blks a rest h hal rfl rfl, fun hx => absurd rfl hx, fun _ _ _ _ => rfl, fun _ _ _ _ => rfl, fun _ _ _ => rfl, fun _ _ _ => rfl⟩
+            exact ⟨WFB_skip s _ blks a rest h hal rfl rfl, fun hx => absurd rfl hx, fun _ _ _ _ => rfl, fun _ _ _ _ => rfl, fun _ _ _ => rfl, fun _ _ _ => rfl, fun _ _ => Or.inl rfl⟩
           · simp only [ha0, if_false]
             rw [indbmap_one _ _ _ ha0]
             simp only [ne_eq, ha0, not_false_eq_true, decide_true, if_true]
@@ -676,7 +695,7 @@ theorem bmap_ok (s : S) (blks : List Nat) (bn : Nat) (h : WFB s blks)
                 show ptr (s.st.put a off b) (blks.set INDIRECT a) q = if q = .ileaf off then b else ptr s.st (blks.set INDIRECT a) q
                 rw [ptr_eq_ptrR, ptr_eq_ptrR, h8]
                 exact ptrR_put_iroot s.st _ a _ (by have := hW1.injR; rw [h8] at this; exact this) off b ha0 q hq)
-            refine ⟨hstep.wf, hstep.hit, ?_, ?_, ?_, ?_⟩
+            refine ⟨hstep.wf, hstep.hit, ?_, ?_, ?_, ?_, ?_⟩
             · intro q hq hdat hne
               rw [hstep.frame q hq hdat hne]
               show ptr s.st (blks.set INDIRECT a) q = _
@@ -702,6 +721,15 @@ theorem bmap_ok (s : S) (blks : List Nat) (bn : Nat) (h : WFB s blks)
               have h1 : ptr s.st (blks.set INDIRECT a) q = ptr s.st blks q := by rw [hptr1 q hq]; simp [hq1]
               rw [hstep.keep q hq (by show ptr s.st (blks.set INDIRECT a) q ≠ 0; rw [h1]; exact hne)]
               exact h1
+            · intro q hq
+              rcases hstep.fromAllocs q hq with h1 | h1
+              · rw [h1]
+                show ptr s.st (blks.set INDIRECT a) q = _ ∨ ptr s.st (blks.set INDIRECT a) q ∈ _
+                rw [hptr1 q hq]
+                by_cases hx : q = .iroot
+                · rw [if_pos hx]; exact Or.inr (by rw [hal]; exact List.mem_cons_self)
+                · rw [if_neg hx]; exact Or.inl rfl
+              · exact Or.inr (by rw [hal]; exact List.mem_cons_of_mem _ h1)
       · rw [indbmap_one _ _ _ hr]
         simp only [ne_eq, not_true_eq_false, decide_false, if_false]
         exact leafStep_ok s blks h (blks.getD INDIRECT 0) off .iroot (.ileaf off) trivial
@@ -729,7 +757,7 @@ theorem bmap_ok (s : S) (blks : List Nat) (bn : Nat) (h : WFB s blks)
           simp only
           by_cases ha0 : a = 0
           · simp only [ha0, if_true, hsame0, ite_self]
-            exact ⟨WFB_skip s _ blks a rest h hal rfl rfl, fun hx => absurd rfl hx, fun _ _ _ _ => rfl, fun _ _ _ _ => rfl, fun _ _ _ => rfl, fun _ _ _ => rfl⟩
+            exact ⟨WFB_skip s _ blks a rest h hal rfl rfl, fun hx => absurd rfl hx, fun _ _ _ _ => rfl, fun _ _ _ _ => rfl, fun _ _ _ => rfl, fun _ _ _ => rfl, fun _ _ => Or.inl rfl⟩
           · simp only [ha0, if_false]
             have haf := h.fresh a (by rw [hal]; simp) ha0
             have hptr1 := ptr_set_droot s.st blks a h.len hr haf.2
@@ -750,7 +778,7 @@ theorem bmap_ok (s : S) (blks : List Nat) (bn : Nat) (h : WFB s blks)
               · exact fun he => haf.1 .iroot trivial (by rw [ptr_eq_ptrR]; simp only [ptrR]; exact he.symm)
             rw [hroot]
             simp only [ne_eq, hflag, not_false_eq_true, decide_true, if_true]
-            refine ⟨hstep.wf, hstep.hit, ?_, ?_, ?_, ?_⟩
+            refine ⟨hstep.wf, hstep.hit, ?_, ?_, ?_, ?_, ?_⟩
             · intro q hq hdat hne
               rw [hstep.frame q hq hdat hne]
               show ptr s.st (blks.set DINDIRECT a) q = _
@@ -776,6 +804,15 @@ theorem bmap_ok (s : S) (blks : List Nat) (bn : Nat) (h : WFB s blks)
               have h1 : ptr s.st (blks.set DINDIRECT a) q = ptr s.st blks q := by rw [hptr1 q hq]; simp [hq1]
               rw [hstep.keep q hq (by show ptr s.st (blks.set DINDIRECT a) q ≠ 0; rw [h1]; exact hne)]
               exact h1
+            · intro q hq
+              rcases hstep.fromAllocs q hq with h1 | h1
+              · rw [h1]
+                show ptr s.st (blks.set DINDIRECT a) q = _ ∨ ptr s.st (blks.set DINDIRECT a) q ∈ _
+                rw [hptr1 q hq]
+                by_cases hx : q = .droot
+                · rw [if_pos hx]; exact Or.inr (by rw [hal]; exact List.mem_cons_self)
+                · rw [if_neg hx]; exact Or.inl rfl
+              · exact Or.inr (by rw [hal]; exact List.mem_cons_of_mem _ h1)
       · obtain ⟨hstep, hroot⟩ := dstep_ok s blks h off hr hofflt
         rw [hroot]
         have hsame : blks.set DINDIRECT (blks.getD DINDIRECT 0) = blks := set_same blks DINDIRECT (by rw [h.len]; decide)
